@@ -70,7 +70,11 @@ class FileWriter(AbstractWriter):
 
         try:
             fd, tfile = tempfile.mkstemp(dir=self._path)
-            os.write(fd, encode(data))
+            data = encode(data)
+            while True:
+                data = data[os.write(fd, data):]
+                if not data:
+                    break
             os.close(fd)
             os.rename(tfile, filename)
 
